@@ -669,7 +669,7 @@ func (c *MConnection) stopPongTimer() {
 // maxPacketMsgSize returns a maximum size of PacketMsg
 func (c *MConnection) maxPacketMsgSize() int {
 	bz, err := proto.Marshal(mustWrapPacket(&kp2p.PacketMsg{
-		ChannelID: 0x01,
+		ChannelID: 0xFF, // the largest channel id (ChannelDescriptor.ID is a byte): ids >= 0x80 need two varint bytes
 		EOF:       true,
 		Data:      make([]byte, c.config.MaxPacketMsgPayloadSize),
 	}))
